@@ -241,6 +241,30 @@ func runRL(x *X) {
 		x.Probe("return-at-cleanup-tick")
 	}
 
+	// Biased closing pattern (rare: it is expensive): a flood of one-off clients -- an address scan,
+	// spoofed X-Forwarded-For values -- and a cleanup tick after it. What the flood does to the table
+	// is the limiter's business; a client that had spent its burst before is no better off for it.
+	floodOdds := 150
+	if x.Tier == "thorough" {
+		floodOdds = 40
+	}
+	if !x.dead && max >= 2 && time.Duration(max)*refill > 30*time.Minute && c.Intn(floodOdds, "flood-of-clients") == 0 {
+		victim := names[c.Intn(nClients, "flood-victim")]
+		s.StepLimit *= 30
+		x.Do("pattern", func() { runScript(victim, []rlOp{{kind: "allow", n: max + 1}}, false) }, onErr)
+		x.Advance(time.Minute, onErr)
+		nFlood := 66000 + c.Intn(3000, "flood-n")
+		x.Do("flood", func() {
+			for i := 0; i < nFlood; i++ {
+				l1.Allow(fmt.Sprintf("198.18.%d.%d#%d", i>>8&255, i&255, i>>16))
+			}
+		}, onErr)
+		x.Advance(21*time.Minute, onErr)
+		x.Do("pattern", func() { runScript(victim, []rlOp{{kind: "allow", n: max + 1}}, false) }, onErr)
+		x.Fault("flood-of-clients")
+		x.Probe("flood-then-cleanup")
+	}
+
 	// ---- oracles over the history ----------------------------------------------
 	per := map[string][]rlEvent{}
 	for _, e := range evs {
